@@ -7,6 +7,7 @@ import (
 	"math"
 	"reflect"
 	"regexp"
+	"sort"
 	"strconv"
 	"strings"
 	"sync"
@@ -469,10 +470,13 @@ func convMapToTarget(source interface{}, target reflect.Type) (interface{}, erro
 
 	sv := reflect.ValueOf(source)
 	result := reflect.MakeMap(target)
-	iter := sv.MapRange()
-	for iter.Next() {
-		k := iter.Key()
-		v := iter.Value()
+	// visit keys in sorted order so that a failing conversion always reports the same entry
+	keys := sv.MapKeys()
+	sort.Slice(keys, func(i, j int) bool {
+		return fmt.Sprint(keys[i].Interface()) < fmt.Sprint(keys[j].Interface())
+	})
+	for _, k := range keys {
+		v := sv.MapIndex(k)
 		evalue, err := convTypeToTarget(v.Interface(), target.Elem())
 		if err != nil {
 			return nil, err
